@@ -205,6 +205,9 @@ class H2Protocol:
             stream_ids = list(self.streams.keys())
             for stream_id in stream_ids:
                 await self._close_stream(stream_id)
+            for buffer in list(self.stream_buffers.values()):
+                # Nothing more can be sent, release anything waiting to
+                await buffer.close()
             await self.has_data.set()
 
     async def stream_send(self, event: StreamEvent) -> None:
@@ -288,6 +291,9 @@ class H2Protocol:
                     pass
             elif isinstance(event, h2.events.StreamReset):
                 await self._close_stream(event.stream_id)
+                if event.stream_id in self.stream_buffers:
+                    # Nothing more can be sent, release anything waiting to
+                    await self.stream_buffers[event.stream_id].close()
                 await self._window_updated(event.stream_id)
             elif isinstance(event, h2.events.WindowUpdated):
                 await self._window_updated(event.stream_id)
